@@ -53,6 +53,8 @@ type semRun struct {
 	// CacheOn: the cases of this run are rendered with plush.CacheEnabled (a process-wide switch: the
 	// run has a worker pool of its own, and every case carries "cache":true for its replay)
 	CacheOn bool
+	// Xmx: java heap of this run where the default (6g) is too small
+	Xmx string
 }
 
 func registerSem(s semSpec) {
@@ -121,7 +123,7 @@ func runSemSpec(c *Ctx, s *semSpec) error {
 			name += "+cache"
 		}
 		_, err = c.mustTLC(name, TLCOpts{Module: mod, Cfg: r.Cfg, Workers: w, Simulate: r.Simulate, Depth: r.Depth,
-			Seed: c.Seed, Timeout: 45 * time.Minute}, exh, feed)
+			Seed: c.Seed, Timeout: 45 * time.Minute, Xmx: r.Xmx}, exh, feed)
 		if r.CacheOn {
 			pool.close()
 			plush.CacheEnabled = false
@@ -287,7 +289,7 @@ func init() {
 	registerSem(semSpec{
 		ID: "C09", Module: "GenScopes", CheckLog: false, TraceCtx: 400, Via: true,
 		Quick:    []semRun{{Cfg: "GenScopes.quick.cfg", Workers: 8}},
-		Thorough: []semRun{{Cfg: "GenScopes.thorough.cfg", Workers: 12}},
+		Thorough: []semRun{{Cfg: "GenScopes.thorough.cfg", Workers: 12, Xmx: "14g"}}, // (790k nestings: 6g ends in back-to-back full collections)
 		Rule:     "GenScopes.tla: every nesting up to MaxDepth of {for, user-function call, partial, contentFor/contentOf with data, block helper with own context} x {the construct itself binds the outer name x, a let in its body binds x}; every level binds a fresh name y_i and probes x and an outer-only name t inside, and x and y_i after the level ends. TLC checks ScopeTheorem (stack depth restored, top scope's x and t unchanged, no y_i leaked) and ProbeTheorem (probe text = declarative expectation) on the reference semantics; real plush must render the same probe output. Direction 2: the context constructions/writes the real evaluator performs while rendering these programs are recorded by the verif hooks and validated by TLC against ContextTrace.tla. distinct_nontrivial = distinct nesting shapes.",
 	})
 	registerSem(semSpec{
